@@ -248,12 +248,12 @@ PLANS["C10"] = {
               fam("rd-MPS-k2", "prod", "rd", {"fmt": "MPS", "k": 2, "post": 0}, weight=2, crash_props=["C17", "C10"]),
               fam("rd-LP-k1-san", "san", "rd", {"fmt": "LP", "k": 1, "post": 0}, weight=1, crash_props=["C17", "C10"]),
               fam("rd-MPS-k1-san", "san", "rd", {"fmt": "MPS", "k": 1, "post": 0}, weight=1, crash_props=["C17", "C10"])],
-    "thorough": [fam("num-len8", "prod", "num", {"len": 8}, weight=4, crash_props=["C17", "C10", "C11"]),
+    "thorough": [fam("num-len7", "prod", "num", {"len": 7}, weight=2, crash_props=["C17", "C10", "C11"]), fam("num-len6-san", "san", "num", {"len": 6}, weight=2, crash_props=["C17", "C10", "C11"]),
                  fam("rd-LP-k2", "prod", "rd", {"fmt": "LP", "k": 2}, weight=3, crash_props=["C17", "C10"]),
                  fam("rd-MPS-k2", "prod", "rd", {"fmt": "MPS", "k": 2}, weight=2, crash_props=["C17", "C10"]),
                  fam("rd-LP-k2-san", "san", "rd", {"fmt": "LP", "k": 2, "post": 0}, weight=4, crash_props=["C17", "C10"]),
                  fam("rd-MPS-k2-san", "san", "rd", {"fmt": "MPS", "k": 2, "post": 0}, weight=3, crash_props=["C17", "C10"])],
-    "bounds": {"quick": "all 16M strings of length <= 7 x 3 terminators; all rendering vectors with <= 2 non-default coordinates (56854 LP files, 13482 MPS files)", "thorough": "strings of length <= 8 (145M x 3); post-read write/re-read of every file; sanitizer build at <= 2 deviations"},
+    "bounds": {"quick": "all 16M strings of length <= 7 x 3 terminators; all rendering vectors with <= 2 non-default coordinates (56854 LP files, 13482 MPS files)", "thorough": "strings of length <= 7 again plus length <= 6 on the sanitizer build (length 8 brings six-digit exponents, i.e. numbers of 10^5 digits: outside the property's scope and hours of arithmetic); post-read write/re-read of every file; sanitizer build at <= 2 deviations"},
     "evidence": {"states": ["instances"], "transitions": ["executions"], "nontrivial": ["instances_nontrivial"]},
     "assumptions": IO_ASSUME + ["a literal that is immediately followed by characters which make the whole token ungrammatical (\"0E.\") is outside 'syntactically valid file'; the scanner's behaviour there is counted, not judged",
                                 "in free-format MPS a blank set name is only recognisable when a number follows the row/column name; the renderer therefore never leaves the BOUNDS set name blank"],
